@@ -15,6 +15,21 @@ CHECKS = {
    note="Trusted: the alphabet (engine/val), the transcription of docs/runtime-types.md in checks/c10 (refConv/refFalsy), the harness snapshot function. Values outside the alphabet are not covered.",
    technique="bounded exhaustive enumeration of value pairs/singletons against algebraic laws and a reference table",
    design="4/C10"),
+ "C02": dict(
+   text="Explicit-state exploration of every compiled function (main, literals, closures, module functions) of every program of the cflow/func families (all statement sequences below a size budget over return/break/continue x loop forms x if/else x && || ?: x closures x recursion x variadic/spread calls, in main/function/closure/module placement) as a transition system over (pc, operand-stack height): structural invariants evaluated in every abstract state (operands in range, jumps on instruction boundaries, one non-negative height per pc on all paths, every path ends in RET/SUSPEND, tail-call shaped calls carry no residue). The model is bound to the implementation by the per-instruction VM probe: on every executed instruction of every probed run the real height must equal the model height. All paths of all functions are covered, not the executed one.",
+   note="Trusted: the stack-effect table in engine/bcv (validated against the VM on every executed instruction), the hook accessors. Programs outside the family bounds are not covered.",
+   technique="explicit-state search over the (pc,height) abstraction of emitted bytecode, exhaustive program enumeration, conformance by VM probe",
+   engine="bcv", design="4/C02"),
+ "C03": dict(
+   text="Every program of the cflow/func families is compiled twice by the same compiler, with and without dead-code elimination (hook). Each function pair is explored as a product transition system over (pc_unoptimised, pc_optimised) from (0,0): related instructions identical up to jump operands, jump targets related again, identical reported source positions; all reachable unoptimised instructions get a partner, hence nothing removed was reachable. Both versions are then run with the same inputs and compared on globals, full error text and executed step count.",
+   note="Trusted: the no-DCE hook (skips passes 1-4 and appends RET), engine/bcv decoder. Bounded by the family budgets.",
+   technique="lock-step bisimulation (explicit product-state search) of optimised vs unoptimised bytecode + differential execution, exhaustive program enumeration",
+   engine="bcv", design="4/C03"),
+ "C12": dict(
+   text="For every program of the consts family (all sequences of <=N snippets producing duplicate constants of each de-duplicable type across main/functions/closures/source modules/builtin modules, plus failing statements) and of the cflow/func families: original bytecode vs RemoveDuplicates vs gob Encode/Decode (of both) are all executed on fresh VMs and compared on globals and full error text incl. positions; transformed bytecode passes the C02 structural exploration; no equal de-duplicable constants remain.",
+   note="Trusted: engine/bcv, harness snapshot. CLI file handling (cmd/tengo) itself is not driven, only Bytecode.Encode/Decode which it calls.",
+   technique="bounded exhaustive program enumeration with differential execution of transformed bytecode + explicit-state structural check",
+   engine="bcv", design="4/C12"),
 }
 
 NOT_YET = {}
@@ -50,6 +65,7 @@ def main():
             "add_only": True,
         },
         "engines": [
+            {"name": "bcv", "path": "engine/bcv, engine/gen", "serves_properties": ["C02", "C03", "C12"], "kind_free_text": "bytecode abstract machine: explicit-state search over (pc,height) and over optimised/unoptimised pc pairs; program families enumerated exhaustively by replayed choice trees"},
             {"name": "enum", "path": "engine/report, engine/val, engine/tg", "serves_properties": sorted(CHECKS), "kind_free_text": "bounded exhaustive enumeration driver: deterministic case lists, parallel execution on the real implementation, violation grouping by signature, known-finding matching, evidence/replay writers"},
         ],
         "checks": checks,
